@@ -122,9 +122,15 @@ func c18Run(f func(dst *bytes.Buffer, src []byte) error, src []byte, prefilled b
 		dst.WriteString("abc")
 	}
 	in := append([]byte(nil), src...)
+	// what earlier calls with other options leave in the pooled working contexts must not show in these functions
+	// (HTMLEscape and the re-formatting of marshaler output run on the encoder's contexts)
+	_, _ = json.MarshalWithOption(c18PrologueVal, json.Colorize(json.DefaultColorScheme), json.UnorderedMap(), json.DisableHTMLEscape())
+	_, _ = json.MarshalIndent(c18PrologueVal, ">", "\t")
 	panicked, msg = util.Safe(func() { err = f(&dst, in) })
 	return append([]byte(nil), dst.Bytes()...), err, panicked, msg
 }
+
+var c18PrologueVal = map[string]interface{}{"a": []int{1}, "b": "<x>"}
 
 // c18Check compares one (function, text, destination state); kind=="" is agreement.
 func c18Check(fn *c18Fn, src []byte, prefilled bool) (kind, detail string) {
@@ -238,7 +244,9 @@ func c18Valid(c *work.Ctx) {
 			}
 		}
 		// HTMLEscape output: an equivalent text without raw <, >, &, U+2028, U+2029
-		if out, _, p, _ := c18Run(func(d *bytes.Buffer, s []byte) error { json.HTMLEscape(d, s); return nil }, src, false); !p {
+		if out, _, p, pmsg := c18Run(func(d *bytes.Buffer, s []byte) error { json.HTMLEscape(d, s); return nil }, src, false); p {
+			c.Violation("HTMLEscape : panic : "+feature, txt, pmsg)
+		} else {
 			if bytes.ContainsAny(out, "<>&") || bytes.Contains(out, []byte("\u2028")) || bytes.Contains(out, []byte("\u2029")) {
 				c.Violation("HTMLEscape : raw special character in output : "+feature, txt, fmt.Sprintf("%q", clip(out)))
 			} else if len(txt) < 2000 {
